@@ -117,25 +117,35 @@ JoinEntry(jt, a, b, h0s, h1s, masked, r, c) ==
             ELSE IF jt = "Full" /\ mt # {} THEN Entry(a, c, i, masked)              \* merged with the matching row
             ELSE ZeroOf(a, b, c)
 
-\* res (a table as returned by the code) is the join of type jt
+\* res (a table as returned by the code) is the join of type jt: the documented columns, in the documented
+\* order, with the documented content.  Content is judged column by column BY NAME, so that a wrong column order
+\* and a wrong entry are two separate findings.
+SeqSet(sq) == {sq[k] : k \in 1..Len(sq)}
+SameColumns(a, b, h1s, res) ==
+    Len(res.names) = Len(ResNames(a, b, h1s)) /\ SeqSet(res.names) = SeqSet(ResNames(a, b, h1s))
+ColumnOK(jt, a, b, h0s, h1s, masked, res, c, n) ==
+    LET col == res.cols[c]  src == SrcCol(a, b, c) IN
+    /\ col.st = src.st /\ col.rs = src.rs /\ col.masked = src.masked /\ col.n = n
+    /\ Len(col.rows) = n
+    /\ \A r \in 1..n : LET e == JoinEntry(jt, a, b, h0s, h1s, masked, r, c) IN
+           /\ col.rows[r] = e.d
+           /\ col.masked = 1 => col.mask[r] = e.m
+JoinContentOK(jt, a, b, h0s, h1s, masked, res) ==
+    /\ SameColumns(a, b, h1s, res)
+    /\ \A k \in 1..Len(res.names) : ColumnOK(jt, a, b, h0s, h1s, masked, res, res.names[k], ResRows(jt, a, b))
+ColumnOrderOK(a, b, h1s, res) == res.names = ResNames(a, b, h1s)
 IsJoin(jt, a, b, h0s, h1s, masked, res) ==
-    LET n == ResRows(jt, a, b) IN
-    /\ res.names = ResNames(a, b, h1s)
-    /\ \A k \in 1..Len(res.names) :
-         LET c == res.names[k]  col == res.cols[c]  src == SrcCol(a, b, c) IN
-         /\ col.st = src.st /\ col.rs = src.rs /\ col.masked = src.masked /\ col.n = n
-         /\ Len(col.rows) = n
-         /\ \A r \in 1..n : LET e == JoinEntry(jt, a, b, h0s, h1s, masked, r, c) IN
-                /\ col.rows[r] = e.d
-                /\ col.masked = 1 => col.mask[r] = e.m
-\* first disagreeing (column, row), for reports
+    JoinContentOK(jt, a, b, h0s, h1s, masked, res) /\ ColumnOrderOK(a, b, h1s, res)
+\* first disagreement, for reports: wrong set of columns; else first wrong (column, row); else wrong column order
 JoinDiff(jt, a, b, h0s, h1s, masked, res) ==
-    IF res.names # ResNames(a, b, h1s) THEN << "names", 0 >>
+    IF ~SameColumns(a, b, h1s, res) THEN << "names", 0 >>
     ELSE LET n == ResRows(jt, a, b)
              bad == {kr \in (1..Len(res.names)) \X (1..n) :
                         LET c == res.names[kr[1]]  col == res.cols[c] IN
                         IF Len(col.rows) # n THEN TRUE
                         ELSE LET e == JoinEntry(jt, a, b, h0s, h1s, masked, kr[2], c) IN
                              col.rows[kr[2]] # e.d \/ (col.masked = 1 /\ col.mask[kr[2]] # e.m)}
-         IN IF bad = {} THEN << "type", 0 >> ELSE LET kq == CHOOSE kk \in bad : TRUE IN << res.names[kq[1]], kq[2] >>
+         IN IF bad # {} THEN LET kq == CHOOSE kk \in bad : TRUE IN << res.names[kq[1]], kq[2] >>
+            ELSE IF ~JoinContentOK(jt, a, b, h0s, h1s, masked, res) THEN << "type", 0 >>
+            ELSE << "column-order", 0 >>
 =============================================================================
